@@ -202,3 +202,73 @@ Proof.
   - intros k c H. apply (do_expiration_sub _ now k c) in H. apply A. apply H.
   - intros x H. apply do_expiration_host_only in H. apply B. exact H.
 Qed.
+
+(* ------------------------------------------------------------ ... and leaves every other cookie alone *)
+
+Lemma delete_cookies_keeps ks : forall j k c, ~ In k ks -> In (k, c) (j_cookies j) ->
+  In (k, c) (j_cookies (delete_cookies j ks)) /\
+  lookup k (j_expirations (delete_cookies j ks)) = lookup k (j_expirations j).
+Proof.
+  induction ks as [|k1 ks IH]; intros j k c N H; simpl; [auto|].
+  assert (N1 : k <> k1) by (intro; subst; apply N; left; reflexivity).
+  destruct (IH (delete_cookie j k1) k c) as [A B].
+  - intro Hin. apply N. right. exact Hin.
+  - unfold delete_cookie. simpl. apply In_remove_key. auto.
+  - split; [exact A|]. rewrite B. unfold delete_cookie. simpl. apply lookup_remove_key_other. exact N1.
+Qed.
+
+Lemma do_expiration_keeps j now k c : In (k, c) (j_cookies j) ->
+  (forall w, lookup k (j_expirations j) = Some w -> (now < w)%Z) ->
+  In (k, c) (j_cookies (do_expiration j now)) /\
+  lookup k (j_expirations (do_expiration j now)) = lookup k (j_expirations j).
+Proof.
+  intros H L. rewrite do_expiration_unfold. destruct (is_nil (j_heap j)); [auto|].
+  match goal with |- context [delete_cookies (set_heap j ?st) ?ks] =>
+    apply (delete_cookies_keeps ks (set_heap j st) k c); [|exact H] end.
+  intro Hin. apply in_map_iff in Hin. destruct Hin as [[w k'] [E Hin]]. simpl in E. subst k'.
+  apply filter_In in Hin. destruct Hin as [Hin D]. simpl in D. apply deadline_is_true in D.
+  apply filter_In in Hin. destruct Hin as [_ S]. simpl in S.
+  specialize (L w D). unfold heap_entry_stays in S. apply negb_true_iff in S. lia.
+Qed.
+
+Lemma update1_foreign u now j m k c : u_host u <> [] ->
+  In (k, c) (j_cookies j) -> ~ domain_match (k_dom k) (u_host u) ->
+  In (k, c) (j_cookies (update1 u now j m)) /\
+  lookup k (j_expirations (update1 u now j m)) = lookup k (j_expirations j).
+Proof.
+  intros Hne H ND. rewrite update1_unfold. cbv zeta.
+  assert (MC : j_cookies (mark j u m) = j_cookies j) by (unfold mark; destruct (marks_host_only m); reflexivity).
+  assert (ME : j_expirations (mark j u m) = j_expirations j) by (unfold mark; destruct (marks_host_only m); reflexivity).
+  destruct (negb (is_nil (u_host u)) && negb (is_domain_match (effective_domain u m) (u_host u))) eqn:E.
+  - rewrite MC, ME. auto.
+  - assert (M : is_domain_match (effective_domain u m) (u_host u) = true).
+    { apply andb_false_iff in E. destruct E as [E|E].
+      - destruct (u_host u); [congruence|discriminate].
+      - apply negb_false_iff in E. exact E. }
+    assert (NK : k <> (effective_domain u m, rstrip SLASH (cookie_path u m), m_name m)).
+    { intro Ek. apply ND. subst k. unfold k_dom. simpl. apply is_domain_match_spec. exact M. }
+    simpl. rewrite stage_expiry_cookies, MC. split.
+    + apply In_upsert. right. auto.
+    + rewrite stage_expiry_other by exact NK. rewrite ME. reflexivity.
+Qed.
+
+(* a response cannot replace or remove a cookie of a domain its host does not domain-match: such a cookie
+   (unless its own deadline has passed) is still there afterwards, with the same value and deadline *)
+Theorem foreign_cookies_untouched j u ms now k c : u_host u <> [] ->
+  In (k, c) (j_cookies j) -> ~ domain_match (k_dom k) (u_host u) ->
+  (forall w, lookup k (j_expirations j) = Some w -> (now < w)%Z) ->
+  In (k, c) (j_cookies (update j u ms now)) /\
+  lookup k (j_expirations (update j u ms now)) = lookup k (j_expirations j).
+Proof.
+  intros Hne H ND L. unfold update. destruct (negb (j_unsafe j) && is_ip (u_host u)); [auto|].
+  assert (G : forall ms j0, In (k, c) (j_cookies j0) ->
+    In (k, c) (j_cookies (fold_left (update1 u now) ms j0)) /\
+    lookup k (j_expirations (fold_left (update1 u now) ms j0)) = lookup k (j_expirations j0)).
+  { clear H L ms. intro ms. induction ms as [|m ms IH]; intros j0 H0; simpl; [auto|].
+    destruct (update1_foreign u now j0 m k c Hne H0 ND) as [A B].
+    destruct (IH _ A) as [A2 B2]. split; [exact A2|congruence]. }
+  destruct (G ms j H) as [A B].
+  destruct (do_expiration_keeps (fold_left (update1 u now) ms j) now k c A) as [A2 B2].
+  - intros w Lw. apply L. rewrite <- B. exact Lw.
+  - split; [exact A2|congruence].
+Qed.
